@@ -493,6 +493,15 @@ class SpsProxy:
     def issparse(self, x):
         return isinstance(x, SymSparse) or _sps.issparse(x)
 
+    def isspmatrix(self, x):
+        return isinstance(x, SymSparse) or _sps.isspmatrix(x)
+
+    def isspmatrix_csr(self, x):
+        return (isinstance(x, SymSparse) and x.format == "csr") or _sps.isspmatrix_csr(x)
+
+    def isspmatrix_csc(self, x):
+        return (isinstance(x, SymSparse) and x.format == "csc") or _sps.isspmatrix_csc(x)
+
     def diags(self, diagonals, offsets=0, shape=None, format=None, dtype=None):
         if Session.active and is_sym(diagonals):
             if not has_sym(diagonals) and not isinstance(diagonals, (list, tuple)):
